@@ -839,6 +839,46 @@ def corrupt_share(path, region, rnd):
     return pos
 
 
+HASH_FAULTS = ["shc-leaf", "shc-mid", "shc-top", "cht-node", "bht-node"]
+
+
+def damage_hash_node(path, kind, rnd):
+    """Flip one bit inside ONE hash of a share: an entry of the share hash chain at leaf / middle / top level
+    (`shc-*`; entries are (hashnum, hash) pairs, depth = floor(log2(hashnum+1))), a leaf-level node of the share's copy
+    of the ciphertext hash tree (`cht-node`) or of its block hash tree (`bht-node`).  Returns a description or None."""
+    import struct
+    base, ver, block_size, data_size, o, b = share_layout(path)
+    bb = bytearray(b)
+    if kind.startswith("shc-"):
+        lo, hi = o["share_hashes"], o["uri_extension"]
+        n = (hi - lo) // 34
+        if n < 1:
+            return None
+        ents = []
+        for i in range(n):
+            (hn,) = struct.unpack(">H", b[base + lo + 34 * i: base + lo + 34 * i + 2])
+            ents.append(((hn + 1).bit_length() - 1, hn, i))
+        ents.sort()
+        pick = ents[-1] if kind == "shc-leaf" else ents[0] if kind == "shc-top" else ents[len(ents) // 2]
+        if kind == "shc-leaf" and rnd.random() < 0.5 and len(ents) > 1 and ents[-2][0] == ents[-1][0]:
+            pick = ents[-2]
+        pos = base + lo + 34 * pick[2] + 2 + rnd.randrange(32)
+        what = "share-hash node %d (depth %d)" % (pick[1], pick[0])
+    else:
+        lo, hi = (o["crypttext_hash_tree"], o["block_hashes"]) if kind == "cht-node" else (o["block_hashes"], o["share_hashes"])
+        n = (hi - lo) // 32
+        if n < 1:
+            return None
+        first_leaf = (n + 1) // 2 - 1
+        node = first_leaf + rnd.randrange(min(2, n - first_leaf))
+        pos = base + lo + 32 * node + rnd.randrange(32)
+        what = "%s node %d of %d" % (kind[:3], node, n)
+    bb[pos] ^= 1 << rnd.randrange(8)
+    with open(path, "wb") as f:
+        f.write(bytes(bb))
+    return what
+
+
 def craft_bad_ciphertext_hashes(g, cap, bad_segs):
     """Rewrite every share of `cap` so that block / share hash validation still passes but the
     ciphertext hash tree has wrong leaves for `bad_segs` (consistently: new tree in every share, new
@@ -1024,12 +1064,21 @@ def _run_scenario(sc, data, out):
             cap = craft_bad_ciphertext_hashes(g, cap, sc["crafted"])
         state = {(srv, shnum): "intact" for (srv, shnum, path) in files}
         for (idx, kind, fseed) in sc["share_faults"]:
-            (srv, shnum, path) = files[idx % len(files)]
+            if isinstance(idx, str):          # "shN": the (first) copy of share number N, wherever it was placed
+                cands = [t for t in files if t[1] == int(idx[2:])]
+                if not cands:
+                    continue
+                (srv, shnum, path) = cands[0]
+            else:
+                (srv, shnum, path) = files[idx % len(files)]
             if state[(srv, shnum)] != "intact":
                 continue
             if kind == "delete":
                 os.unlink(path)
                 state[(srv, shnum)] = "deleted"
+            elif kind in HASH_FAULTS:
+                if damage_hash_node(path, kind, random.Random(fseed)) is not None:
+                    state[(srv, shnum)] = "corrupt"
             elif kind == "truncate-header":
                 with open(path, "rb") as f:
                     b = f.read()
@@ -1464,7 +1513,39 @@ GRID_CORPUS = [
     # seeded C46-c: guess (1000) smaller than the real segment size (2000), guessed segnum >= real segment count
     ("bad-segnum-retry", _sc(size=3000, segsize=2000, gmax=1000, fresh_nodes=True, grid_seed=5, dataseed=6,
                              reads=[[[2500, 50]], [[2999, 1], [2100, 700]], [[1500, 10]]])),
+    # seeded C03-d (hashtree rollback): all ten shares on one server, in-order delivery, so the damaged sh0 is validated
+    # first; its share-hash chain has one wrong leaf-level entry / its ciphertext-hash-tree copy one wrong node; nine
+    # intact shares remain (k = 3)
+    ("hash-chain-leaf-damage", _sc(k=3, n=10, servers=1, size=700, segsize=128, hashdamage=True,
+                                   share_faults=[["sh0", "shc-leaf", 7]], reads=[[[0, 700]]])),
+    ("ciphertext-tree-node-damage", _sc(k=3, n=10, servers=1, size=700, segsize=128, hashdamage=True,
+                                        share_faults=[["sh0", "cht-node", 3]], reads=[[[0, 700]]])),
+    ("hash-damage-two-shares", _sc(k=2, n=6, servers=2, size=500, segsize=64, hashdamage=True,
+                                   share_faults=[["sh0", "shc-leaf", 1], ["sh1", "bht-node", 2]], reads=[[[0, 500]], [[130, 70]]])),
+    ("hash-chain-top-mid-damage", _sc(k=3, n=10, servers=1, size=700, segsize=128, hashdamage=True,
+                                      share_faults=[["sh0", "shc-top", 5], ["sh1", "shc-mid", 6]], reads=[[[0, 700]]])),
     # fix 6853eb2: ciphertext hash check of segment 1 fails after block validation; later reads on the same node
     ("decode-failure-then-reads", _sc(k=2, n=4, servers=5, size=200, crafted=[1],
                                       reads=[[[0, 64]], [[64, 64]], [[64, 10]], [[0, 64]]])),
 ]
+
+
+def gen_hashdamage_scenario(rng):
+    """One or two of the shares that are validated first (lowest share numbers; several shares per server, mostly
+    in-order delivery) carry one damaged hash: an entry of the share hash chain at leaf / middle / top level, a node of
+    their copy of the ciphertext hash tree, or a block-hash-tree node.  Multi-segment files; >= k shares stay intact."""
+    k = rng.choice([1, 2, 3])
+    n = rng.choice([x for x in (4, 6, 10) if x >= k + 2])
+    segsize = rng.choice([32, 64, 128])
+    size = rng.choice([150, 300, 500, 700])
+    sc = {"kind": "grid", "k": k, "n": n, "servers": rng.choice([1, 1, 2, 3]), "segsize": segsize, "size": size,
+          "hashdamage": True, "grid_seed": rng.randrange(1 << 30), "policy": rng.choice(["fifo", "fifo", "fifo", "random", "lifo"]),
+          "dataseed": rng.randrange(1 << 30), "copies": [], "share_faults": [], "server_plans": {}, "reads": [], "crafted": []}
+    victims = rng.sample(range(min(n, k + 1)), rng.choice([1, 1, 2]) if k + 1 >= 2 else 1)
+    for v in victims[:max(1, n - k - 1)]:
+        sc["share_faults"].append(["sh%d" % v, rng.choice(HASH_FAULTS + ["shc-leaf", "cht-node"]), rng.randrange(1 << 30)])
+    sc["reads"].append([[0, size]])
+    if rng.random() < 0.5:
+        off = rng.randrange(0, size)
+        sc["reads"].append([[off, rng.randrange(1, size - off + 1)]])
+    return sc
